@@ -18,6 +18,9 @@ class Gen:
         self.cfg = cfg
         self.sc: Dict = {}
         self.n_sub = 0
+        # a node shared with another tree must not become the anchor of a nested `with` block: re-parenting it
+        # makes the primary-parent chain cyclic and the construction itself never returns (in isolation too)
+        self.in_rule_branch = False
 
     # ------------------------------------------------------------------ world
     def world(self):
@@ -83,10 +86,24 @@ class Gen:
                 choices += [("exists", 1.2), ("forall", 1.2)]
             if self.cfg.get("subqueries", True):
                 choices += [("subq", 0.7)]
+        choices += [("truthy", 1.2), ("item_eq", 1.0)]
         kind = c.weighted(choices)
         lit = c.int(0, 3)
         op = c.pick(CMP_OPS)
+        shared_attrs = [] if self.in_rule_branch else [k for k, sk in enumerate(self.sc.get("shared_kinds", [])) if sk == "attr"]
+        if kind == "truthy":
+            # a bare attribute used as a condition (true when the attribute value is truthy)
+            if shared_attrs and c.chance(0.6):
+                return ["shared", c.pick(shared_attrs)]
+            return ["attr", v, c.pick(["a", "b"])]
+        if kind == "item_eq":
+            serials = [it["s"] for d in self.sc["domains"] for it in d["items"]]
+            if serials:
+                return ["cmp", c.pick(["==", "!="]), ["attr", v, "ref"], ["item", c.pick(serials)]]
+            kind = "cmp_lit"
         if kind == "cmp_lit":
+            if shared_attrs and c.chance(0.5):
+                return ["cmp", op, ["shared", c.pick(shared_attrs)], ["lit", lit]]
             return ["cmp", op, ["attr", v, c.pick(["a", "b"])], ["lit", lit]]
         if kind == "join":
             return ["cmp", c.weighted([("==", 4), ("!=", 1), ("<", 1), (">=", 1)]), ["attr", v, c.pick(["a", "b"])], ["attr", w, c.pick(["a", "b"])]]
@@ -128,8 +145,9 @@ class Gen:
     def cond(self, pool: List[int], depth: int):
         c = self.c
         if depth <= 0 or c.chance(0.45):
-            if self.sc.get("shared") and c.chance(0.5):
-                return ["shared", c.int(0, len(self.sc["shared"]) - 1)]
+            shared_conds = [k for k, sk in enumerate(self.sc.get("shared_kinds", [])) if sk == "cond"]
+            if shared_conds and c.chance(0.5):
+                return ["shared", c.pick(shared_conds)]
             return self.atom(pool, depth)
         kind = c.weighted([("and", 3), ("or", 3), ("not", 2)])
         if kind == "not":
@@ -176,8 +194,10 @@ class Gen:
     def branch(self, pool, depth):
         c = self.c
         kind = c.pick(["refinement", "alternative", "next"])
+        self.in_rule_branch = True
         br = {"kind": kind, "conds": [self.atom(pool, 0) for _ in range(c.weighted([(1, 4), (2, 1)]))],
               "concl": self.conclusion(pool), "branches": []}
+        self.in_rule_branch = False
         if depth > 0 and c.chance(0.35):
             br["branches"].append(self.branch(pool, depth - 1))
         return br
@@ -344,17 +364,27 @@ class Gen:
         self.world()
         nv = len(self.sc["vars"])
         self.sc["shared"] = []
+        self.sc["shared_kinds"] = []
         if c.chance(self.cfg.get("shared_p", 0.35)):
             pool = sorted(c.sample(range(nv), min(2, nv)))
             for _ in range(c.weighted([(1, 3), (2, 1)])):
-                self.sc["shared"].append(self.atom(pool, 0))
+                if c.chance(0.35):
+                    # an attribute expression that queries use in different roles (operand of a comparison, bare condition)
+                    self.sc["shared"].append(["attr", ["var", c.pick(pool)], c.pick(["a", "b"])])
+                    self.sc["shared_kinds"].append("attr")
+                else:
+                    self.sc["shared"].append(self.atom(pool, 0))
+                    self.sc["shared_kinds"].append("cond")
         nq = c.weighted([(1, 3), (2, 4), (3, 3)])
         self.sc["queries"] = [self.query(allow_rule=True) for _ in range(nq)]
         if self.sc["shared"] and nq >= 2 and c.chance(0.35):
             # swarm knob: the same condition node is placed in every query (the case _eval_parent_ exists for)
             self.sc["knob_expression_focus"] = True
             for q in self.sc["queries"]:
-                q["conds"].insert(c.int(0, len(q["conds"])), ["shared", 0])
+                if self.sc["shared_kinds"][0] == "attr" and c.chance(0.5):
+                    q["conds"].insert(c.int(0, len(q["conds"])), ["cmp", c.pick(CMP_OPS), ["shared", 0], ["lit", c.int(0, 3)]])
+                else:
+                    q["conds"].insert(c.int(0, len(q["conds"])), ["shared", 0])
         ops = self.schedule()
         if c.chance(0.5):
             ops = self.serialise_same_rule_query(ops)
